@@ -379,4 +379,37 @@ Definition show_asm_result (r : res (list N)) : string :=
       else "err:" +++ e_kind e +++ "(" +++ join "," (e_args e) +++ ") out=-"
   | Panic s => "panic:" +++ s
   end.
-Definition run_asm (ops : list rawop) : string := show_asm_result (assemble ops).
+(* ---------- the parser's own range check (parse/mod.rs parse_push) ----------
+   While the source is parsed, every `pushN <expr>` whose operand evaluates WITHOUT any context
+   (no labels, no macros, no variables) to a value >= 2^(8N) is rejected with
+   ParseError::ImmediateTooLarge -- also inside macro bodies, before anything is assembled. *)
+Definition parse_push_check (code : N) (e : expr) : res unit :=
+  match eval no_labels (fun _ => None) 0 None e with
+  | Ok v => if 256 ^ Z.of_nat (extra_of code) <=? v then err0 "Parse.ImmediateTooLarge" else Ok tt
+  | _ => Ok tt
+  end.
+
+Fixpoint parse_check_aop (a : aop) : res unit :=
+  match a with
+  | AOp code (Some e) => parse_push_check code e
+  | AMacroDefI _ _ body =>
+      (fix go (l : list aop) : res unit :=
+         match l with
+         | [] => Ok tt
+         | b :: r => do _ <- parse_check_aop b ; go r
+         end) body
+  | _ => Ok tt
+  end.
+
+Fixpoint parse_check (ops : list rawop) : res unit :=
+  match ops with
+  | [] => Ok tt
+  | ROp a :: r => do _ <- parse_check_aop a ; parse_check r
+  | _ :: r => parse_check r
+  end.
+
+(* Ingest::ingest of a single source text: parse (with its check), then assemble *)
+Definition ingest_ast (ops : list rawop) : res (list N) :=
+  do _ <- parse_check ops ; assemble ops.
+
+Definition run_asm (ops : list rawop) : string := show_asm_result (ingest_ast ops).
